@@ -560,9 +560,11 @@ def shape_cases(rng, tier):
     out = []
     for N in NS:
         for L in sorted({max(N - 1, 0), N, N + 1}):
-            for kind in ('list', 'tuple', 'set', 'iter', 'dict', 'fset', 'kview', 'vview', 'ordering'):
+            for kind in ('list', 'tuple', 'set', 'iter', 'dict', 'fset', 'kview', 'iview', 'vview', 'ordering'):
                 if kind == 'dict':
                     inner = {'m': 'dict', 'l': [[c10.enc_scalar('k%d' % i), c10.enc_scalar(i)] for i in range(L)]}
+                elif kind == 'iview':       # items(): finalised into a list of L pairs, the view is checked by len
+                    inner = {'q': kind, 'l': [{'q': 'tuple', 'l': [c10.enc_scalar('k%d' % i), c10.enc_scalar(i)]} for i in range(L)]}
                 else:
                     inner = {'q': kind, 'l': [c10.enc_scalar(i) for i in range(L)]}
                 hashable_inner = kind in ('tuple', 'fset', 'iter', 'vview', 'ordering')
